@@ -235,6 +235,13 @@ static void proj(FILE *f, const vrt_rec_t *r)
 		break;
 	}
 	case VRT_ATOMIC:
+		if (r->cls == 2) {
+			/* item list of the queue: only the exchange of dq_items_tail is projected (who made the list non-empty) */
+			if (r->obj == g_obj && !strcmp(r->site->dvs_op, "xchg") && strstr(r->site->dvs_expr, "tail"))
+				fprintf(f, "{\"e\":\"Tail\",\"t\":%d,\"f\":\"%s\",\"first\":%s}\n", r->tid, r->site->dvs_func,
+						r->oldv == 0 ? "true" : "false");
+			break;
+		}
 		if (r->cls != 1) break;
 		if (r->size == 4) {
 			/* 32-bit access to one half of the word: not modelled, report as unknown */
@@ -313,6 +320,8 @@ int main(int argc, char **argv)
 	vrt_set_projector(proj);
 	vrt_add_class("dq_state", 1);
 	vrt_add_class("dq_items_tail", 2);
+	vrt_add_class("_os_mpsc_tail", 2);
+	vrt_add_class("_os_mpsc_head", 2);
 	vrt_add_class("dq_items_head", 2);
 	vrt_add_class("do_next", 2);
 	vrt_set_hang_seconds(25);
